@@ -123,6 +123,8 @@ def type_ok(v, t):
             return True
         if a == "intset" and isinstance(v, (tuple, list, set, frozenset)):
             return True
+        if a == "emptydict" and isinstance(v, dict) and not v:
+            return True
         if a in CLASSES:
             modname, _, cls = CLASSES[a]["class"].rpartition(".")
             if isinstance(v, getattr(importlib.import_module(modname), cls)):
